@@ -80,8 +80,12 @@ class Proxy:
         if name in data:
             return data[name]
         real = object.__getattribute__(self, "_real")
+        if name in ("debug_log", "info_log", "warning_log", "error_log"):
+            return lambda *a, **k: None          # logging is dropped by the verifier (A-DROP)
         try:
             attr = inspect.getattr_static(real, name)
+            if type(attr).__name__ in ("member_descriptor", "getset_descriptor"):
+                raise AttributeError(name)       # an unset __slots__ field
         except AttributeError:
             if name.startswith("__") and name.endswith("__"):
                 raise
@@ -107,8 +111,12 @@ class Proxy:
 
     def __setattr__(self, name, value):
         real = object.__getattribute__(self, "_real")
+        if name in ("debug_log", "info_log", "warning_log", "error_log"):
+            return lambda *a, **k: None          # logging is dropped by the verifier (A-DROP)
         try:
             attr = inspect.getattr_static(real, name)
+            if type(attr).__name__ in ("member_descriptor", "getset_descriptor"):
+                raise AttributeError(name)       # an unset __slots__ field
         except AttributeError:
             attr = None
         if isinstance(attr, property) and attr.fset is not None:
@@ -196,6 +204,8 @@ def build(v, path="?"):
             o = STUBS[v["$obj"]](name, LOG)
             OBJS[v["$id"]] = o
             for k, x in v["fields"].items():
+                if k in ("pending", "epoch") and v["$obj"] == "DelayManager":
+                    continue
                 setattr(o, k, build(x, name + "." + k))
             return o
         if cls is not None:
